@@ -297,9 +297,17 @@ pub fn fill_hex(num_vars: usize, table: &mut [u64], s: &str) -> Result<(), ()> {
 
     for (i, t) in table.iter_mut().rev().enumerate() {
         let ss = &s[i * width..(i + 1) * width];
+        // from_str_radix alone would accept a leading sign
+        if !ss.bytes().all(|b| b.is_ascii_hexdigit()) {
+            return Err(());
+        }
         let v = u64::from_str_radix(ss, 16);
         match v {
             Ok(v) => {
+                // A single digit can encode more bits than a Lut0 or Lut1 holds
+                if v & !num_vars_mask(num_vars) != 0 {
+                    return Err(());
+                }
                 *t = v;
             }
             Err(_) => {
